@@ -99,6 +99,12 @@ CHECKS = {
           'throwing operations in the reference parser are guarded.',
   'note': 'Byte-exact preservation of text between references and the UTF-8 arithmetic of Substr/iterators (C20 string clause) are not decided. Two reference-parser crashes found by r6 were repaired (fix commits 7cddfef, 5695371).',
  },
+ 'C13': {
+  'technique': 'structural data-flow rules (what is copied, in which order, through which copy routine), fixpoint-shape rule for a selection that grows while it is read, shared graph/refresh rules',
+  'text': 'Decides: the basis is exactly SortSubset(ExpandInputs(selection)) copied in bulk and renumbered; the maximal part is computed to a fixpoint (or in dependency order), with the membership test keyed on an empty definition and on all direct inputs, '
+          'returned in list order, copied in bulk and renumbered; both refuse before building anything; SortSubset keeps list order; the backward closure and the alias-renumbering refresh they depend on satisfy the C14 / C07 rules.',
+  'note': 'Preservation of correctness status and typification of each copied constituent is a value-level statement and is not decided. One defect found by r2 (single-pass selection) was repaired in /repo.',
+ },
 }
 
 _PENDING = 'rule module not yet implemented in this round; see DESIGN.md section 4 for the clauses planned'
